@@ -187,7 +187,9 @@ def build(prop):
         files = deps + [pf]
         st, qed, names = count_obligations([f for f in files if os.path.exists(os.path.join(COQ, f))])
         res["obligations"] = st
-        res["discharged"] = qed if not res["proof_broken"] else max(0, min(qed, st) - len(res["proof_broken"]))
+        # every statement of a file that coqc accepted is discharged (the grep gate excludes Admitted/admit);
+        # `qed` is only used to estimate what is left when something broke
+        res["discharged"] = st if not res["proof_broken"] else max(0, min(qed, st) - len(res["proof_broken"]))
         res["theorem_names"] = [n for n in names if n.startswith(prop.ID)]
     return res
 
